@@ -2,7 +2,7 @@
    Model: theories/Server.v; invariants over (state, all outputs so far) for every history and schedule. *)
 From Coq Require Import NArith List Bool Lia.
 Import ListNotations.
-From EIO Require Import Server ServerInv ServerProofs ServerCor ServerReasons.
+From EIO Require Import Server ServerInv ServerProofs ServerCor ServerReasons ServerIso ServerEvt.
 Open Scope N_scope.
 
 (* the disconnect event is emitted at most once per session, whatever ends it and however the causes race *)
@@ -49,6 +49,20 @@ Theorem c05_ping_timeout_only_if_expired : forall cfg i p s,
   expired cfg (match alookup i (store s) with Some x => x | None => new_sess end) (now s) = true.
 Proof. exact ping_timeout_only_if_expired. Qed.
 
+(* events are never misattributed (every step, from any state): what runs on behalf of one session - its long poll, its WebSocket handler
+   and writer, its heartbeat, a handler of one of its messages, a close of it, a request or an application call that names it - fires
+   connect / message / disconnect events for that session only, whatever its packets carry and whatever their handlers do *)
+Theorem c05_task_events_own_session : forall cfg me e i s, session_of (t_task e) = Some i ->
+  Forall (eonly i) (ServerReasons.outof (run_task cfg me e s)).
+Proof. exact task_events_own_session. Qed.
+Theorem c05_request_events_own_session : forall cfg me r q i s,
+  decision_session (decide cfg q (ServerReasons.valof (lookup_view cfg q s))) = Some i ->
+  Forall (eonly i) (ServerReasons.outof (handle_request cfg me r q s)).
+Proof. exact request_events_own_session. Qed.
+Theorem c05_api_events_own_session : forall cfg me a x i s, api_session x = Some i ->
+  Forall (eonly i) (ServerReasons.outof (run_api cfg me a x s)).
+Proof. exact api_events_own_session. Qed.
+
 Print Assumptions c05_disconnect_once.
 Print Assumptions c05_disconnect_only_when_closing.
 Print Assumptions c05_nothing_after_close.
@@ -58,3 +72,6 @@ Print Assumptions c05_reason_by_request.
 Print Assumptions c05_reason_by_call.
 Print Assumptions c05_client_disconnect_needs_close.
 Print Assumptions c05_ping_timeout_only_if_expired.
+Print Assumptions c05_task_events_own_session.
+Print Assumptions c05_request_events_own_session.
+Print Assumptions c05_api_events_own_session.
